@@ -190,6 +190,11 @@ func (am *YAMLAccountManager) Delete(login string) error {
 		return fmt.Errorf("delete account file: %w", os.ErrNotExist)
 	}
 
+	// A server whose accounts directory is empty does not start (NewYAMLAccountManager insists on at least one account).
+	if len(am.accounts) == 1 {
+		return fmt.Errorf("delete account file: %s is the last account", login)
+	}
+
 	err := os.Remove(filepath.Join(am.accountDir, path.Join("/", login+".yaml")))
 	if err != nil {
 		return fmt.Errorf("delete account file: %v", err)
